@@ -1,5 +1,5 @@
 """C16 — Built-in filters and counters follow their decision rules on every sequence."""
-import itertools, json, os
+import itertools, json, os, random
 import vlib
 
 META = {
@@ -15,10 +15,14 @@ META = {
             'passes the run-collapsed sequence; a SeqNumberAttr object hands out 0,1,2,... to the messages it sees, inside the '
             'int range for up to 2^31 messages, whatever later handlers decide and however many pipelines share the object; '
             'RegExpFilter passes iff the expression matches a factor of the text (regex subset, derivative matcher = inductive '
-            'relation). The extracted model and the extracted boolean monitor are run against the real objects.',
+            'relation). The extracted model and the extracted boolean monitor are run against the real objects, each kind obtained both by '
+            'constructing the class and through the fluent API (SimplePipeline::filterLevel / filterDuplicate / filter(regexp) / addSeqNumber; '
+            'the translator anchors that each appends exactly one object of the translated class built from the argument); the 25 level pairs '
+            'go through both; one run of 70000 messages through one SeqNumberAttr is compared with observe ref_cfg (= the oracle, C16_oracle_exact).',
     'note': 'Trusted: Coq 8.16.1 kernel (vm_compute only for the closed configuration check and the 25-pair sweep), no axioms; '
             'tools/s2c/filters.py (regex translation of levelfilter.h, duplicatefilter.*, regexpfilter.cpp, seqnumberattr.*), '
-            'extraction (ExtrOcamlBasic) and ocaml/drv_filters.ml, harness/h_filters.cpp, the scenario generator. Modelled not '
+            'extraction (ExtrOcamlBasic) and ocaml/drv_filters.ml (reads a fluently obtained object as its kind), harness/h_filters.cpp (a fluent object '
+            '= the handlers a scratch SimplePipeline holds after the fluent call, run in order until one says no), the scenario generator. Modelled not '
             'verified: QString::operator== (code-unit equality, null == empty), QVariantHash, Pipeline::process (C01), '
             'QRegularExpression/PCRE2 — the regex theorem is about the modelled subset (literals, classes, ., concatenation, '
             'alternation, * + ?, ^ $ with PCRE2 defaults: UTF mode, newline LF, no MULTILINE/DOTALL/DOLLAR_ENDONLY); the full '
@@ -140,7 +144,7 @@ class Scn:
     def line(self, pcre):
         toks = []
         for o in self.objs:
-            toks.append('o:' + (o if not o.startswith('R') else 'R%s~%s' % (o[1:], pcre[o[1:]])))
+            toks.append('o:' + (o if o[0] not in 'Rr' else '%s%s~%s' % (o[0], o[1:], pcre[o[1:]])))
         toks += ['p:' + ','.join(str(i) for i in p) for p in self.pipes]
         toks += [('m:%d' % m[0] if m[0] >= 0 else 'a:%d' % (-m[0] - 1)) + ':%d:%d:%s' % tuple(m[1:4])
                  + ((':%d:%d' % (m[4], m[5])) if len(m) > 5 and m[5] else (':%d' % m[4] if len(m) > 4 and m[4] else '')) for m in self.msgs]
@@ -149,7 +153,38 @@ class Scn:
     def kinds(self):
         used = {i for p in self.pipes for i in p if i < len(self.objs)}
         used |= {-m[0] - 1 for m in self.msgs if m[0] < 0 and -m[0] - 1 < len(self.objs)}
-        return sorted({self.objs[i][0] for i in used})
+        return sorted({self.objs[i][0].upper() for i in used})
+
+    def fluent(self):
+        """object numbers obtained through the fluent API (lower-case kind)"""
+        return [i for i, o in enumerate(self.objs) if o[0] in FLUENT]
+
+
+# lower-case kind = the same handler kind, obtained by the harness through SimplePipeline's fluent method
+FLUENT = {'d': 'SimplePipeline::filterDuplicate()', 'n': 'SimplePipeline::addSeqNumber(name)', 'v': 'SimplePipeline::filterLevel(t)',
+          'r': 'SimplePipeline::filter(regexp)'}
+
+
+def fluently(rng, scn, hist):
+    """the same scenario with some of its D / N / V / R objects obtained through the fluent API"""
+    idx = [i for i, o in enumerate(scn.objs) if o[0] in 'DNVR']
+    if not idx:
+        return scn
+    pick = idx if rng.random() < 0.3 else [i for i in idx if rng.random() < 0.5]
+    for i in pick:
+        o = scn.objs[i]
+        scn.objs[i] = o[0].lower() + o[1:]
+        hist['fluent_' + o[0]] = hist.get('fluent_' + o[0], 0) + 1
+    return scn
+
+
+LONG_N = 70000
+
+
+def long_scn(n, fluent):
+    """n tiny messages through ONE SeqNumberAttr shared by two pipelines; a later filter drops every third message"""
+    a = u16('a')
+    return Scn(['n' if fluent else 'N', 'X0'], [[0, 1], [0]], [(1 if k % 5 == 4 else 0, 4, 1 if k % 3 == 2 else 0, a, 0) for k in range(n)])
 
 
 def gen_scenario(rng, hist, big):
@@ -193,7 +228,7 @@ def gen_scenario(rng, hist, big):
     # (the rules are about the sequence a handler sees, whoever logs)
     threads = [0] if rng.random() < 0.4 else rng.sample([0, 1, 2, 3], rng.randint(2, 4))
     hist['threads_%d' % len(threads)] = hist.get('threads_%d' % len(threads), 0) + 1
-    direct_targets = [i for i, o in enumerate(objs) if o[0] in 'NDVRX']
+    direct_targets = [i for i, o in enumerate(objs) if o[0] in 'NDVRX']   # (objects become fluent only after generation)
     seq_targets = [i for i, o in enumerate(objs) if o[0] == 'N']
     direct_targets += seq_targets * 3                       # mostly the counters
     direct = bool(direct_targets) and rng.random() < 0.35
@@ -223,7 +258,7 @@ def exhaustive_scenarios(maxlen):
 
 
 def regex_asts(scns):
-    return sorted({o[1:] for s in scns for o in s.objs if o.startswith('R')})
+    return sorted({o[1:] for s in scns for o in s.objs if o[0] in 'Rr'})
 
 
 class Runner:
@@ -241,7 +276,7 @@ class Runner:
     def drop_unprintable(self, scns):
         """replace expressions outside the printable subset (e.g. an empty class) by 'e'"""
         for s in scns:
-            s.objs = [('Re' if o.startswith('R') and self.pcre.get(o[1:], '!').startswith(('!', 'E')) else o) for o in s.objs]
+            s.objs = [(o[0] + 'e' if o[0] in 'Rr' and self.pcre.get(o[1:], '!').startswith(('!', 'E')) else o) for o in s.objs]
         self.pcre.setdefault('e', '283f3a29')
 
     def lines(self, scns):
@@ -323,8 +358,27 @@ def prune(scn):
     return Scn([scn.objs[o] for o in used_o], pipes, msgs)
 
 
+def long_run(run, n, fluent, exact_oracle=False):
+    """run long_scn(n, fluent) on the real objects; k = index of the first message whose observation is not the prescribed one"""
+    scn = long_scn(n, fluent)
+    l = scn.line({})
+    io = run.impl_obs([l])[1][0].split(';')[:-1]
+    so = run.spec_obs([l])[0].split(';')[:-1]
+    mo = run.model_obs([l])[0].split(';')[:-1]
+    k = next((i for i in range(max(len(io), len(so))) if i >= len(io) or i >= len(so) or io[i] != so[i]), None)
+    decided = 'implementation observations == observe ref_cfg (theorem C16_oracle_exact: equivalent to prop_c16_b = true)'
+    if exact_oracle:
+        ok = run.oracle([l], [';'.join(io) + ';'])[0] == '1'
+        decided = 'prop_c16_b evaluated on the implementation observations'
+        if ok and k is not None or (not ok and k is None):
+            k = None if ok else 0
+    get = lambda xs, i: xs[i] if i is not None and i < len(xs) else 'missing'
+    return {'k': k, 'scn': scn, 'impl_at_k': get(io, k), 'spec_at_k': get(so, k), 'before': ';'.join(io[max(0, (k or 0) - 3):(k or 0)]),
+            'last': get(io, len(io) - 1) if io else 'missing', 'model_differs': mo != so, 'decided_by': decided}
+
+
 KIND = {'D': 'duplicate', 'N': 'seqnumber', 'V': 'level', 'R': 'regex'}
-OBJ_DOC = ('o:D DuplicateFilter, o:N SeqNumberAttr("s<k>"), o:V<t> LevelFilter(QtMsgType t), o:R<ast>~<PCRE hex> RegExpFilter, '
+OBJ_DOC = ('lower-case kind (o:d o:n o:v<t> o:r...) = the same kind obtained through SimplePipeline::filterDuplicate() / addSeqNumber("s<k>") / filterLevel(t) / filter(regexp) on a scratch SimplePipeline (the object is what that call installed); o:D DuplicateFilter, o:N SeqNumberAttr("s<k>"), o:V<t> LevelFilter(QtMsgType t), o:R<ast>~<PCRE hex> RegExpFilter, '
            'o:FC/FT formatter (constant "X" / shown text + flags char), o:X<b> filter dropping iff bit b of the flags; '
            'p: pipeline = object numbers; m:<pipeline>:<QtMsgType>:<flags>:<text hex UTF-16, - = null>[:<harness thread that constructs and sends it, 0 = main>]; a:<object>:... = attributes()/filter() of that object called directly by another user; observations: per message '
            'the handler calls (1/0 verdict, 1=<n> sequence number), messages end with ;')
@@ -344,7 +398,8 @@ def run():
     chk = vlib.Check('C16')
     chk.trusted = ['Coq 8.16.1 kernel; vm_compute only on closed terms (cfg_goodb src_cfg, 25 level pairs); no native_compute',
                    'axioms: none (every Print Assumptions: Closed under the global context)',
-                   'tools/s2c/filters.py translator (levelfilter.h, duplicatefilter.{h,cpp}, regexpfilter.cpp, seqnumberattr.{h,cpp} -> SrcFilters.v)',
+                   'tools/s2c/filters.py translator (levelfilter.h, duplicatefilter.{h,cpp}, regexpfilter.cpp, seqnumberattr.{h,cpp} -> SrcFilters.v; '
+                   'simplepipeline.cpp fluent methods + Pipeline::append: shape anchors only, the fluent way of obtaining an object is not part of the Coq model)',
                    'extraction ExtrOcamlBasic, no Extract Constant; ocaml/drv_filters.ml (parsing/printing, int<->N/Z)',
                    'harness/h_filters.cpp (probe handlers, scripted formatters/drop filters) and the scenario generator in checks/c16.py',
                    'modelled, not verified: QString equality (UTF-16 code units; null == empty), QVariantHash, Pipeline::process, '
@@ -373,25 +428,27 @@ def run():
 
     # ---- 1. LevelFilter: all thresholds x all types
     pairs = ['%d %d' % (a, b) for a in range(5) for b in range(5)]
-    _, lv_i, _ = vlib.run_lines(impl, pairs, ['level'])
     _, lv_m, _ = vlib.run_lines(model, pairs, ['level'])
     names = ['debug', 'warning', 'critical', 'fatal', 'info']
-    lv_i += ['?'] * (25 - len(lv_i))
-    wrong, differ = [], []
-    for pr, a, b in zip(pairs, lv_i, lv_m):
-        mn, t = map(int, pr.split())
-        if a != b[1]:
-            wrong.append({'threshold': names[mn], 'type': names[t], 'implementation_passes': a == '1', 'specified_passes': b[1] == '1'})
-        if a != b[0]:
-            differ.append((names[mn], names[t]))
-    if wrong:
-        w = wrong[0]
-        chk.fail('LevelFilter(%s) %s a %s message, the severity order debug<info<warning<critical<fatal says the opposite (%d of 25 pairs wrong)' % (
-            w['threshold'], 'passes' if w['implementation_passes'] else 'drops', w['type'], len(wrong)),
-            dict(w, kind='level', wrong_pairs=wrong), kind='level')
-    if differ:
-        chk.broke('correspondence: LevelFilter model (translated priority table) and implementation differ on %d pairs, e.g. %s' % (len(differ), differ[0]),
-                  {'kind': 'correspondence', 'pairs': differ})
+    # both ways of obtaining the filter: the LevelFilter class, and what SimplePipeline::filterLevel(threshold) installs
+    for hmode, made in (('level', 'LevelFilter(%s)'), ('flevel', 'the filter installed by SimplePipeline::filterLevel(%s)')):
+        _, lv_i, _ = vlib.run_lines(impl, pairs, [hmode])
+        lv_i += ['?'] * (25 - len(lv_i))
+        wrong, differ = [], []
+        for pr, a, b in zip(pairs, lv_i, lv_m):
+            mn, t = map(int, pr.split())
+            if a != b[1]:
+                wrong.append({'threshold': names[mn], 'type': names[t], 'implementation_passes': a == '1', 'specified_passes': b[1] == '1'})
+            if a != b[0]:
+                differ.append((names[mn], names[t]))
+        if wrong:
+            w = wrong[0]
+            chk.fail('%s %s a %s message, the severity order debug<info<warning<critical<fatal says the opposite (%d of 25 pairs wrong)' % (
+                made % w['threshold'], 'passes' if w['implementation_passes'] else 'drops', w['type'], len(wrong)),
+                dict(w, kind='level', obtained_through=(made % w['threshold']), harness_mode=hmode, wrong_pairs=wrong), kind='level')
+        if differ:
+            chk.broke('correspondence: LevelFilter model (translated priority table) and %s differ on %d pairs, e.g. %s' % (made % 't', len(differ), differ[0]),
+                      {'kind': 'correspondence', 'harness_mode': hmode, 'pairs': differ})
 
     # ---- 2. scenarios through the real objects
     scns = []
@@ -417,8 +474,24 @@ def run():
     nrand = 12000 if thorough else 4000
     for _ in range(nrand):
         scns.append(gen_scenario(chk.rng, hist, thorough))
+    # a third of the random scenarios obtain some of their D / N / V / R objects through the fluent API
+    # (own generator, seeded from chk.rng AFTER the scenarios were drawn: the scenarios themselves are those of earlier rounds)
+    fl_rng = random.Random(chk.rng.getrandbits(64))
+    for s in scns[len(scns) - nrand:]:
+        if fl_rng.random() < 0.34:
+            fluently(fl_rng, s, hist)
+    # the 25 (threshold, type) pairs and the stateful kinds through pipelines, every object fluent
+    em = tok_text('')
+    scns.append(Scn(['v%d' % t for t in range(5)] + ['n'], [[5, t] for t in range(5)], [(p, t, 0, em, 0) for p in range(5) for t in range(5)]))
+    scns.append(Scn(['n', 'X0', 'd', 'rc%x;' % ord('a')], [[0, 1, 2], [2, 0, 3], [3]],
+                    [(k % 3, 4, (k // 2) % 2, tok_text(t), k % 2) for k, t in enumerate(['', '', 'a', 'a', 'a', 'b', 'A', 'a', 'a', None, '', 'ab', 'ab', 'ba'])]
+                    + [(-1, 4, 0, a_, 0), (-3, 4, 0, a_, 0), (-3, 4, 0, a_, 0), (0, 4, 0, a_, 0)]))
+    hist['fluent_fixed_scenarios'] = 2
     ex_len = 5 if thorough else 4
     exh = list(exhaustive_scenarios(ex_len))
+    # the exhaustive family once more with N and D obtained fluently (one length shorter)
+    exh_f = [Scn(['n', 'X0', 'd'], s.pipes, s.msgs) for s in exhaustive_scenarios(ex_len - 1)]
+    exh += exh_f
     scns += exh
     run_.need_pcre(scns)
     run_.drop_unprintable(scns)
@@ -493,6 +566,32 @@ def run():
 
     report(run_, falsified)
 
+    # ---- 3. one long run: LONG_N messages through ONE SeqNumberAttr (shared by two pipelines, a later filter drops every
+    # third message): the numbers must go on 0, 1, 2, ... (the model's counter is an unbounded Z; the int bound of the
+    # theorem is 2^31 messages).  prop_c16_b is quadratic in the length, so the run is decided by comparing with the
+    # observations the rules prescribe (observe ref_cfg): by theorem C16_oracle_exact that IS the oracle's verdict.
+    long_cov = []
+    for fl in ([False, True] if thorough else [False]):
+        res = long_run(run_, LONG_N, fl)
+        long_cov.append({'messages': LONG_N, 'counter_obtained_through': FLUENT['n'] if fl else 'SeqNumberAttr', 'first_wrong_message': res['k'],
+                         'last_observation': res['last']})
+        if res['k'] is not None:
+            k = res['k']
+            small = long_run(run_, k + 1, fl, exact_oracle=k + 1 <= 6000)         # the shortest failing prefix, in a fresh process
+            if small['k'] is not None:
+                chk.fail('seqnumber rule violated on a long run: message number %d through one SeqNumberAttr object is observed as "%s", the rules say "%s"' % (
+                    small['k'] + 1, small['impl_at_k'], small['spec_at_k']),
+                    {'kind': 'seqnumber', 'handler_kinds': ['seqnumber'], 'long_run': {'messages': k + 1, 'fluent': fl},
+                     'objects': small['scn'].objs, 'pipelines': small['scn'].pipes,
+                     'messages': '%d messages: text "a", type info, message k goes to pipeline 1 iff k %% 5 == 4, flags 1 (dropped by X0) iff k %% 3 == 2' % (k + 1),
+                     'first_wrong_message_index': small['k'], 'implementation_observation': small['impl_at_k'], 'specified_observation': small['spec_at_k'],
+                     'implementation_observations_before': small['before'], 'decided_by': small['decided_by'], 'legend': OBJ_DOC}, kind='seqnumber')
+            else:
+                chk.broke('long run: the real SeqNumberAttr deviates at message %d of %d but not when the first %d messages are run alone' % (k, LONG_N, k + 1),
+                          {'kind': 'long-run-unstable', 'long_run': {'messages': LONG_N, 'fluent': fl}, 'first_wrong_message_index': k})
+        elif res['model_differs']:
+            chk.broke('correspondence: model (translated configuration) and the rules differ on the long run', {'kind': 'correspondence', 'long_run': {'messages': LONG_N, 'fluent': fl}})
+
     # ---- the same scenarios with the harness under a UTF-8 locale (QLocale / ICU collation active):
     # the rules compare texts code unit by code unit, whatever the locale
     loc_env = {'LC_ALL': 'en_US.UTF-8', 'LANG': 'en_US.UTF-8', 'LC_COLLATE': 'en_US.UTF-8', 'LC_CTYPE': 'en_US.UTF-8'}
@@ -543,7 +642,7 @@ def run():
                 for c in m.split(','):
                     regex_true += c == '1'; regex_false += c == '0'
     multi_thread = sum(1 for s in scns if len({(tuple(m) + (0,))[4] for m in s.msgs}) > 1)
-    shared = sum(1 for s in scns if any(sum(1 for p in s.pipes if i in p) >= 2 for i, ob in enumerate(s.objs) if ob in ('D', 'N')))
+    shared = sum(1 for s in scns if any(sum(1 for p in s.pipes if i in p) >= 2 for i, ob in enumerate(s.objs) if ob in ('D', 'N', 'd', 'n')))
     nontrivial = {l for l, o in zip(lines, obs_i) if '0' in o.replace('=0', '') and '1' in o}
     textclass = {'null': 0, 'empty': 0, 'illformed': 0, 'astral': 0}
     for s in scns:
@@ -562,13 +661,14 @@ def run():
                 except UnicodeDecodeError:
                     textclass['illformed'] += 1
     chk.cov.update({
-        'evaluations': len(scns) + 25, 'distinct_nontrivial': len(nontrivial),
+        'evaluations': len(scns) + 50 + len(long_cov), 'distinct_nontrivial': len(nontrivial),
         'rule': 'scenarios = handler objects (real DuplicateFilter/SeqNumberAttr/LevelFilter/RegExpFilter, scripted formatters and '
                 'drop filters) placed in 1-3 real pipelines (objects shared), 4-%d messages each (constructed and sent, one after the other, from up to 4 harness threads) with texts drawn as runs/alternations '
                 'from confusable pools (case, whitespace, NFC/NFD, null/empty, newline, astral, ill-formed); plus every sequence of '
                 'length <= %d over {null, "", "a", "A"} x drop flag through two pipelines sharing N and D; plus all 25 '
-                '(threshold, type) pairs; non-trivial = a scenario with both verdicts observed' % (40 if thorough else 22, ex_len),
-        'level_pairs': 25, 'corpus_replayed': corpus, 'random_scenarios': nrand, 'exhaustive_scenarios': len(exh), 'exhaustive_up_to_length': ex_len,
+                '(threshold, type) pairs through LevelFilter(t) and through SimplePipeline::filterLevel(t); a third of the random scenarios, the exhaustive family one length shorter and two fixed scenarios obtain D/N/V/R objects through the fluent API (lower-case kinds); '
+                'one run of 70000 messages through one SeqNumberAttr; non-trivial = a scenario with both verdicts observed' % (40 if thorough else 22, ex_len),
+        'level_pairs': 50, 'corpus_replayed': corpus, 'random_scenarios': nrand, 'exhaustive_scenarios': len(exh), 'exhaustive_up_to_length': ex_len,
         'messages': nmsgs, 'handler_calls_observed': len(calls),
         'verdict_histogram': {'pass': sum(1 for c in calls if c[0] == '1'), 'drop': sum(1 for c in calls if c[0] == '0'),
                               'numbered': sum(1 for c in calls if '=' in c)},
@@ -579,6 +679,9 @@ def run():
         'oracle_falsified_scenarios': len(falsified),
         'locale_subrun': {'environment': loc_env, 'scenarios': len(lines), 'oracle_falsified_scenarios': len(falsified_l),
                           'observations_differing_from_C_locale_run': sum(1 for x, y in zip(obs_l, obs_i) if x != y)},
+        'long_runs': long_cov, 'fluent_objects': sum(len(s.fluent()) for s in scns),
+        'scenarios_with_fluent_object': sum(1 for s in scns if s.fluent()),
+        'level_pairs_obtained_through': ['LevelFilter(t)', 'SimplePipeline::filterLevel(t)'],
         'variants': extra})
     pick = [0, len(scns) // 3, len(scns) // 2]
     chk.samples = [{'scenario': lines[i][:400], 'impl': obs_i[i][:200], 'model': obs_m[i][:200]} for i in pick if i < len(scns)]
@@ -594,9 +697,20 @@ def replay(path):
     if r.get('kind') == 'level' and 'threshold' in r:
         names = ['debug', 'warning', 'critical', 'fatal', 'info']
         l = '%d %d' % (names.index(r['threshold']), names.index(r['type']))
-        print('LevelFilter(%s) on a %s message' % (r['threshold'], r['type']))
-        print('implementation passes', vlib.run_lines(impl, [l], ['level'])[1])
+        print('%s on a %s message' % (r.get('obtained_through', 'LevelFilter(%s)' % r['threshold']), r['type']))
+        print('implementation passes', vlib.run_lines(impl, [l], [r.get('harness_mode', 'level')])[1])
         print('model passes / specified', vlib.run_lines(model, [l], ['level'])[1])
+        return 0
+    if r.get('long_run'):
+        run_ = Runner(model, impl)
+        n, fl = r['long_run']['messages'], r['long_run'].get('fluent', False)
+        res = long_run(run_, n, fl, exact_oracle=n <= 6000)
+        print('long run       ', n, 'messages through', res['scn'].objs, 'pipelines', res['scn'].pipes, '(message k: pipeline 1 iff k % 5 == 4, dropped by X0 iff k % 3 == 2)')
+        print('legend         ', OBJ_DOC)
+        print('first message whose observation is not the prescribed one:', res['k'])
+        print('implementation ', res['before'], '|', res['impl_at_k'])
+        print('specified      ', res['spec_at_k'])
+        print('decided by     ', res['decided_by'])
         return 0
     if r.get('scns'):
         run_ = Runner(model, impl, env=r.get('environment'))
